@@ -282,7 +282,10 @@ unsafe extern "C" fn foreign_drop<T>(data: *mut T, len: usize, capacity: usize) 
 
 static NULL_EMPTY: std::sync::atomic::AtomicU32 = std::sync::atomic::AtomicU32::new(0);
 
-fn new_foreign<T: Elem>(items: Vec<T>, spare: usize) -> CVec<T> {
+/// `owned == false`: the foreign module keeps the buffer for itself (`drop_fn` is NULL): dropping
+/// the vector on the Rust side releases nothing, the module reads the structure back and releases
+/// buffer and elements itself (see `release`).
+fn new_foreign<T: Elem>(items: Vec<T>, spare: usize, owned: bool) -> CVec<T> {
     unsafe {
         let cap = items.len() + spare;
         // every other bufferless vector of the foreign module is the C-natural {NULL, 0, 0}
@@ -291,8 +294,19 @@ fn new_foreign<T: Elem>(items: Vec<T>, spare: usize) -> CVec<T> {
         for (i, it) in items.into_iter().enumerate() {
             std::ptr::write(data.add(i), it);
         }
-        let view = VecView::<T> { data, len, capacity: cap, drop_fn: Some(foreign_drop::<T>), reserve_fn: Some(foreign_reserve::<T>) };
+        let view = VecView::<T> { data, len, capacity: cap, drop_fn: if owned { Some(foreign_drop::<T>) } else { None }, reserve_fn: Some(foreign_reserve::<T>) };
         cview::view::<VecView<T>, CVec<T>>(view)
+    }
+}
+
+/// Drops a vector the way its owner would: Rust's `Drop`, and for a vector whose `drop_fn` is NULL
+/// the foreign module's own release of what it kept (a double release or a missing one shows in
+/// the element and buffer books).
+fn release<T: Elem>(v: CVec<T>) {
+    let cv = view_of(&v);
+    track(|| drop(v));
+    if cv.drop_fn.is_none() {
+        unsafe { foreign_drop(cv.data, cv.len, cv.capacity) };
     }
 }
 
@@ -398,7 +412,11 @@ fn apply<T: Elem>(st: &mut State<T>, step: &Step, counts: &mut Vec<&'static str>
                         ids.push(id);
                     }
                     counts.push("fault.foreign_policy");
-                    (new_foreign(items, spare), true)
+                    let owned = (len + spare) % 3 != 1;
+                    if !owned {
+                        counts.push("fault.foreign_unowned_buffer");
+                    }
+                    (new_foreign(items, spare, owned), true)
                 }
                 2 if len == 0 => (track(CVec::default), false),
                 _ => {
@@ -563,6 +581,10 @@ fn apply<T: Elem>(st: &mut State<T>, step: &Step, counts: &mut Vec<&'static str>
             if a == b || st.slots[a].is_none() || st.slots[b].is_none() {
                 return Ok("CloneFrom noop".into());
             }
+            if view_of(&st.slots[b].as_ref().unwrap().v).drop_fn.is_none() {
+                // (what happens to a buffer its maker kept for itself is not the vector's business)
+                return Ok("CloneFrom noop(unowned destination)".into());
+            }
             let src = st.slots[a].take().unwrap();
             let dst = st.slots[b].as_mut().unwrap();
             track(|| dst.v.clone_from(&src.v));
@@ -601,12 +623,13 @@ fn apply<T: Elem>(st: &mut State<T>, step: &Step, counts: &mut Vec<&'static str>
                 counts.push("party.c");
                 unsafe {
                     let cv: VecView<T> = cview::view(slot.v);
-                    if let Some(f) = cv.drop_fn {
-                        track(|| f(cv.data, cv.len, cv.capacity));
+                    match cv.drop_fn {
+                        Some(f) => track(|| f(cv.data, cv.len, cv.capacity)),
+                        None => foreign_drop(cv.data, cv.len, cv.capacity),
                     }
                 }
             } else {
-                track(|| drop(slot.v));
+                release(slot.v);
             }
             if nonempty {
                 counts.push("probe.drop_nonempty");
@@ -692,7 +715,7 @@ fn exec_t<T: Elem>(plan: &Plan, ctx: &mut RunCtx) -> VResult {
         ctx.baton.on(last_t, || {
             for s in stp.slots.iter_mut() {
                 if let Some(slot) = s.take() {
-                    track(|| drop(slot.v));
+                    release(slot.v);
                 }
             }
         });
